@@ -320,6 +320,30 @@ func init() {
 				bad("ColorFromEncodedColor(RGBA)", v, r, t8[v])
 				c.res.count(s.name+"-ctor8", fmt.Sprint(s.name, "c8", v), true)
 			}
+			// every other concrete colour type, through the generic constructor: for an opaque colour the result
+			// is the 16-bit table at the components its RGBA() method reports
+			for v := 0; v < 256; v++ {
+				u := uint8(v)
+				for _, in := range []color.Color{color.Gray{Y: u}, color.Gray16{Y: uint16(v)*257 ^ 0x55}, color.Gray16{Y: uint16(v) << 8}, color.CMYK{C: u, M: uint8(255 - v), Y: 9, K: uint8(v / 2)},
+					color.CMYK{K: uint8(255 - v)}, color.YCbCr{Y: u, Cb: 128, Cr: 128}, color.YCbCr{Y: u, Cb: uint8(255 - v), Cr: 77}, color.NYCbCrA{YCbCr: color.YCbCr{Y: u, Cb: 100, Cr: 200}, A: 255},
+					color.Alpha{A: 255}, color.Alpha16{A: 0xffff}, opaqueCustom{uint16(v) * 251, uint16(65535 - v*3), uint16(v)}} {
+					r16, g16, b16, a16 := in.RGBA()
+					if a16 != 0xffff {
+						continue
+					}
+					r, g, b, _ := s.encoded(in)
+					entry := fmt.Sprintf("ColorFromEncodedColor(%T)", in)
+					bad(entry, int(r16), r, t16[r16])
+					bad(entry, int(g16), g, t16[g16])
+					bad(entry, int(b16), b, t16[b16])
+					lin := s.linearise(in)
+					if lin.R != quant16ref(math.Float32frombits(t16[r16])) || lin.G != quant16ref(math.Float32frombits(t16[g16])) || lin.B != quant16ref(math.Float32frombits(t16[b16])) || lin.A != 0xffff {
+						c.res.fail(Failure{Class: "C01:" + s.name + ":LineariseColor", Desc: fmt.Sprintf("LineariseColor on an opaque %T is not the 16-bit quantisation of the decoded value", in),
+							Input: map[string]interface{}{"space": s.name, "colour": fmt.Sprintf("%T%v", in, in)}, Got: fmt.Sprint(lin), Want: "quantised table values"})
+					}
+				}
+				c.res.count(s.name+"-ctor-kinds", fmt.Sprint(s.name, "kinds", v), true)
+			}
 			for v := 0; v < 65536; v++ {
 				u := uint16(v)
 				r, g, b, _ := s.encoded(color.NRGBA64{u, uint16(65535 - v), 1234, 0xffff})
@@ -341,6 +365,13 @@ func init() {
 		c.res.sample(map[string]interface{}{"space": "adobergb", "width": 8, "code": 128, "bits": fmt.Sprintf("%#x", tables["adobergb8"][128])})
 		c.res.sample(map[string]interface{}{"space": "prophotorgb", "width": 16, "code": 1000, "bits": fmt.Sprintf("%#x", tables["prophotorgb16"][1000])})
 	}
+}
+
+// a colour type the library cannot know
+type opaqueCustom struct{ r, g, b uint16 }
+
+func (c opaqueCustom) RGBA() (uint32, uint32, uint32, uint32) {
+	return uint32(c.r), uint32(c.g), uint32(c.b), 0xffff
 }
 
 func quant16ref(v float32) uint16 {
